@@ -367,7 +367,14 @@ func (g *gen) structField(depth int) int {
 		if emb {
 			name = ftT.Name
 		}
-		g.s.Types[st].Fields = append(g.s.Types[st].Fields, Field{Name: name, T: ft, Embedded: emb})
+		fld := Field{Name: name, T: ft, Embedded: emb}
+		if !emb && g.r.Intn(4) == 0 {
+			// declared through an alias of its type: the same type under another spelling
+			fld.Alias = g.typeName() + "Alias"
+			g.s.ExtraDecl += fmt.Sprintf("type %s = %s\n", fld.Alias, g.s.Expr(ft, ""))
+			g.feature("struct-field-declared-through-alias")
+		}
+		g.s.Types[st].Fields = append(g.s.Types[st].Fields, fld)
 	}
 	use := st
 	if g.r.Intn(2) == 0 || (g.o.Wire && g.r.Intn(5) != 0) {
